@@ -92,7 +92,7 @@ def rule_T(ck, T="C01-T", D="C01-D"):
             hs = set()
             for x in xs:
                 hc = arms.handler_calls(x)
-                if x.kind == "return" and x.value == ("ctor", OK, (pathsum.UNIT,)):
+                if x.kind in ("return", "err") and x.value == ("ctor", OK, (pathsum.UNIT,)):
                     names = [h[1] for h in hc]
                     ck.judge(len(names) == 1, D, "witness:%s:arm%d:one-handler" % (m, k), "success path calls exactly %s" % names,
                              "success path of arm %d calls %s (must be exactly its handler)" % (k, names))
@@ -104,7 +104,7 @@ def rule_T(ck, T="C01-T", D="C01-D"):
             else:
                 ck.bad(D, "witness:%s:arm%d:handler" % (m, k), "arm %d reaches handlers %s" % (k, sorted(hs)))
         # wildcard
-        okw = bool(arms.wild) and all(x.kind == "return" and x.value == ("ctor", ERR, (("ctor", UNDEF, ()),)) and not arms.handler_calls(x) for x in arms.wild)
+        okw = bool(arms.wild) and all(x.kind in ("return", "err") and x.value == ("ctor", ERR, (("ctor", UNDEF, ()),)) and not arms.handler_calls(x) for x in arms.wild)
         ck.judge(okw, D, "witness:%s:wildcard" % m, "unknown id -> Err(UndefinedHeader), nothing called",
                  "wildcard arm: %s" % [pathsum.show_exit(x)[:200] for x in arms.wild][:2])
         ck.judge(sorted(id2fn) == list(range(len(decls))), D, "witness:%s:arm-ids" % m, "arms 0..%d" % (len(decls) - 1),
@@ -254,7 +254,7 @@ def rule_X(ck, lib):
         if uses_other or some is None:
             ck.bad("C01-X", key, "slot selection does not follow the query flag (inspects %s)" % show_term(other if uses_other else slot), data=pathsum.show_exit(x))
         elif some is False:
-            ok = x.kind == "return" and x.value == ("ctor", ERR, (("ctor", UNDEF, ()),)) and not [e for e in x.effects if e[0] == "call"]
+            ok = x.kind in ("return", "err") and x.value == ("ctor", ERR, (("ctor", UNDEF, ()),)) and not [e for e in x.effects if e[0] == "call"]
             ck.judge(ok, "C01-X", key, "empty slot -> Err(UndefinedHeader), nothing executed", "empty slot path: %s" % pathsum.show_exit(x)[:300])
         else:
             ok = len(cmds) == 1 and cmds[0][2][0] == ("param", "self") and cmds[0][2][1] == ("payload", slot, SOME, 0) and cmds[0][2][2] == ("field", callp, "args")
@@ -325,7 +325,7 @@ def rule_W(ck, lib):
                 if d is False:
                     seen_none = True
                     want = ("ctor", ERR, (("from", ("ctor", UNDEF, ()), "microscpi::error::Error", "microscpi::parser::ParseError"),))
-                    if not (x.kind == "err" and x.value == want):
+                    if not (x.kind in ("return", "err") and x.value == want):
                         okn = False
                 elif d is None:
                     okn = False
